@@ -103,7 +103,7 @@ def _claims_rule(r4, item_paths, dfn):
             ok = kind == "Owned" and inner is not None and SR.pure(inner, dec) and SR.call_succeeded(q, r"::decode_b64$", {0: lambda a: sym.term(a) == SR.param("payload")})
             r4.require(ok, (dfn, "claims-owned"), "with b64 absent/true the claims are not Owned(decode_b64(payload)?): %r" % (claims,))
         else:
-            ok = kind == "Borrowed" and inner is not None and sym.term(inner) == SR.param("payload")
+            ok = (kind == "Borrowed" and inner is not None and sym.term(inner) == SR.param("payload")) or sym.term(claims) == SR.param("payload")   # (a Cow handed through as it is)
             r4.require(ok, (dfn, "claims-borrowed"), "with b64=false the claims are not the received payload itself: %r" % (claims,))
     for row in sorted(seen, key=str):
         r4.site("claims rule: effective b64 %s → %s" % row)
@@ -208,7 +208,8 @@ def run(F, R, tier):
             for f in fs:
                 if f["name"] in fields:
                     r1.site("%s.%s : %s" % (L.short(ty), f["name"], f["ty"]))
-                    r1.require("&" in f["ty"] and "str" in f["ty"] and "String" not in f["ty"], (ty, f["name"], "borrowed"), "%s.%s is no longer a borrowed &str (%s): a re-serialised copy could be signed over" % (L.short(ty), f["name"], f["ty"]))
+                    cow_ok = f["name"] == "payload" and re.search(r"Cow<'\w+,\s*str>", f["ty"]) is not None      # borrowed when possible, owned only to unescape
+                    r1.require(cow_ok or ("&" in f["ty"] and "str" in f["ty"] and "String" not in f["ty"]), (ty, f["name"], "borrowed"), "%s.%s is no longer a borrowed &str (%s): a re-serialised copy could be signed over" % (L.short(ty), f["name"], f["ty"]))
     # decode_b64 — what turns the signature segment into the bytes the verifier sees — is base64url, unpadded, and nothing else: one
     # decoding of the whole input with Base::Base64Url, its result returned, its error returned.  A second, more lenient decoding
     # (standard alphabet, padding) would give one signature several spellings: a mutated segment that still verifies.
@@ -325,27 +326,48 @@ def run(F, R, tier):
     r5 = R.rule("C01-R5", "T4", "expand_payload: (detached,None)→detached, (None,embedded)→embedded, both→Err, neither→Err")
     efn = DEC + "::Decoder::expand_payload"
     if r5.anchor(F.hir(efn), efn):
-        tab = SR.Table(F, efn, opaque=r"filter_non_empty_bytes$", rule=r5)
-        DET = SR.param("detached_payload")
-        EMB = ("call", DEC + "::filter_non_empty_bytes", (SR.param("parsed_payload"),))
+        # evaluated on the four Option shapes with symbolic payloads (the helper that drops an empty embedded payload inlined): the row is
+        # decided by (detached present?, embedded present and non-empty?)
+        ev5 = sym.Evaluator(F, inline_depth=4)
+        D_, E_ = sym.Sym(("param", "D")), sym.Sym(("param", "E"))
         rows = {}
-        for q in tab.paths:
-            for t_ in q.variant:
-                if isinstance(t_, tuple) and t_[:1] == ("call",) and t_[1].endswith("filter_non_empty_bytes") and t_[2] == (SR.param("parsed_payload"),):
-                    EMB = t_
-            d, e = SR.variant(q, DET), SR.variant(q, EMB)
-            if SR.is_success(q.ret):
-                inner = q.ret.fields[0] if isinstance(q.ret, sym.V) and q.ret.fields else None
-                src = "detached" if sym.term(inner) == ("payload", DET, "Some", 0) else ("embedded" if sym.term(inner) == ("payload", EMB, "Some", 0) else "other:%s" % sym.fmt(sym.term(inner)))
-                rows[(d, e)] = "Ok(%s)" % src
-            else:
-                rows[(d, e)] = "Err"
+        okev = True
+        for dname, dv in (("Some", sym.V("Some", (D_,))), ("None", sym.V("None"))):
+            for ename, evv in (("Some", sym.V("Some", (E_,))), ("None", sym.V("None"))):
+                try:
+                    ps = ev5.explore(efn, args=[dv, evv], max_paths=50)
+                except (sym.Abort, sym.TooManyPaths) as e:
+                    r5.fail((efn, "not-evaluable"), "expand_payload could not be evaluated: %s" % e)
+                    okev = False
+                    continue
+                for q in ps:
+                    if not q.complete:
+                        r5.fail((efn, "not-evaluable"), "expand_payload: a path could not be evaluated to the end (%s)" % q.note)
+                        okev = False
+                        continue
+                    # is the embedded payload known to be empty / non-empty on this path?
+                    emp = None
+                    for (a_, c, _, _) in q.decisions:
+                        fa = sym.fmt_atom(a_)
+                        if "E" in fa and ("is_empty" in fa or a_[0] == "nonempty"):
+                            emp = (bool(c) if "is_empty" in fa else not bool(c))
+                    ekey = "None" if ename == "None" or emp is True else "Some"
+                    if SR.is_success(q.ret) and not SR.is_failure(q.ret):
+                        inner = q.ret.fields[0] if isinstance(q.ret, sym.V) and q.ret.fields else None
+                        ti = sym.term(inner)
+                        conv = re.compile(r"(as_ref|as_bytes|as_slice|deref|borrow|into|from|Borrowed|Owned)$")
+                        src = "detached" if SR.pure(ti, D_.t, conv=conv) else ("embedded" if SR.pure(ti, E_.t, conv=conv) else "other:%s" % sym.fmt(ti)[:60])
+                        out = "Ok(%s)" % src
+                    else:
+                        out = "Err"
+                    prev = rows.get((dname, ekey))
+                    rows[(dname, ekey)] = out if prev in (None, out) else "%s / %s" % (prev, out)
         for k_, v_ in sorted(rows.items(), key=str):
-            r5.site("expand_payload (detached %s, embedded %s) → %s" % (k_[0], k_[1], v_))
+            r5.site("expand_payload (detached %s, non-empty embedded %s) → %s" % (k_[0], k_[1], v_))
         want = {("Some", "None"): "Ok(detached)", ("None", "Some"): "Ok(embedded)", ("Some", "Some"): "Err", ("None", "None"): "Err"}
         for k_, v_ in want.items():
-            r5.require(rows.get(k_) == v_ or not tab.paths, (efn, "row", "(%s, %s)" % k_), "row (detached %s, embedded %s) is %s, expected %s" % (k_[0], k_[1], rows.get(k_), v_))
-        r5.require(set(rows) == set(want) or not tab.paths, (efn, "rows"), "expand_payload does not decide on exactly (detached payload, non-empty embedded payload): %s" % sorted(rows, key=str))
+            r5.require(rows.get(k_) == v_ or not okev, (efn, "row", "(%s, %s)" % k_), "row (detached %s, embedded %s) is %s, expected %s" % (k_[0], k_[1], rows.get(k_), v_))
+        r5.require(set(rows) == set(want) or not okev, (efn, "rows"), "expand_payload does not decide on exactly (detached payload, non-empty embedded payload): %s" % sorted(rows, key=str))
     r5.floor(4)
 
     # ------------------------------------------------------------------ R6 concrete verifiers
